@@ -21,7 +21,7 @@ RULE = ("0-5 parameters, values in {int, float, None, str (incl. multi-character
         "; also: equal-valued values of different type / sign (1, 1.0, True, 0.0, -0.0), str-subclass strings, agent classes / objects as single values, the constructor dict checked for aliasing, collections whose elements are unhashable (lists, dicts, rows of a 2-D array), one collection object declared under two names, 9-13 parameters of which 2-4 are collections")
 COMPONENTS = {"real": ["ECAgent.Batching.ParameterList.__init__ / add_parameter / remove_parameter / build"],
               "stub": ["none - the reference is an independent nested-loop product"]}
-PROBES = ["collection_of_a_list_or_tuple_subclass", "empty_collection", "no_parameters", "repeated_values", "string_value", "rebuild_after_mutation", "ndarray_value",
+PROBES = ["array_of_text_labels", "collection_of_a_list_or_tuple_subclass", "empty_collection", "no_parameters", "repeated_values", "string_value", "rebuild_after_mutation", "ndarray_value",
           "range_value", "constructor_dict", "reject_nonstr", "reject_duplicate", "reject_unknown", "constructor_rejected",
           "single_value_is_agent_class_or_object", "string_value_of_a_str_subclass", "values_with_unhashable_elements", "one_object_declared_under_two_names", "nine_or_more_parameters"]
 TECHNIQUE = "deterministic simulation: seeded declare/remove/build histories with injected rejected declarations and caller-side mutation vs an independent nested-loop product"
@@ -61,6 +61,9 @@ def gen_val(rng):
         return {"k": "ntuple" if rng.random() < 0.25 else "tuple", "v": elems}
     if r < 0.87:
         return {"k": "range", "v": n}
+    if rng.random() < 0.3:
+        # an array of labels (numpy text / bytes dtype): a collection of its elements like any other array
+        return {"k": "ndarray_text", "v": [rng.choice(["greedy", "random", "a", "", "bb"]) for _ in range(n)], "bytes": rng.random() < 0.3}
     return {"k": "ndarray", "v": [rng.randint(0, 4) for _ in range(n)]}
 
 
@@ -141,6 +144,8 @@ def decode(spec):
         return range(int(spec["v"]))
     if k == "ndarray":
         return np.array(spec["v"], dtype=np.int64)
+    if k == "ndarray_text":
+        return np.array(spec["v"], dtype="S8" if spec.get("bytes") else "U8")
     if k == "ndarray2d":
         return np.array(spec["v"], dtype=np.int64).reshape(len(spec["v"]), 2)
     raise ValueError(k)
@@ -158,6 +163,8 @@ def as_list(spec):
         return [np.str_(spec["v"]) if spec.get("how") == "numpy" else Label(spec["v"])]
     if k == "range":
         return list(range(int(spec["v"])))
+    if k == "ndarray_text":
+        return list(np.array(spec["v"], dtype="S8" if spec.get("bytes") else "U8"))
     if k == "ndarray":
         return list(np.array(spec["v"], dtype=np.int64))      # iterating the declared array yields numpy scalars
     if k == "ndarray2d":
@@ -305,8 +312,10 @@ def execute(sc, ctx):
         for _, s in decl:
             if s["k"] == "str":
                 ctx.probe("string_value")
-            if s["k"] in ("ndarray", "ndarray2d"):
+            if s["k"] in ("ndarray", "ndarray2d", "ndarray_text"):
                 ctx.probe("ndarray_value")
+            if s["k"] == "ndarray_text":
+                ctx.probe("array_of_text_labels")
             if s["k"] == "ndarray2d" or (s["k"] in ("list", "tuple") and any(isinstance(e, (list, dict)) for e in s["v"])):
                 ctx.probe("values_with_unhashable_elements")
             if s["k"] == "range":
